@@ -133,10 +133,11 @@ def oracle(R, graph, case, io_, closures):
             cyclic = any(any(b != a and b in rr[a] and a in rr.get(b, ()) for b in nodes) for a in nodes) or top in listed
             if check and unsetup_any:
                 yield ("terminates", "D32", "RecursionError from the in-use check (unsetupRequired inside a cycle)")
+            elif rec and unsetup_any:
+                # also when the closure is cyclic: the model (which has the D33 repair) must reproduce the outcome
+                yield ("terminates", "D32", "RecursionError: unsetupRequired line met while listing direct dependencies")
             elif rec and cyclic:
                 yield ("terminates", None, "RecursionError: recursive remove over a cyclic dependency closure (D33, repaired)")
-            elif rec and unsetup_any:
-                yield ("terminates", "D32", "RecursionError: unsetupRequired line met while listing direct dependencies")
             else:
                 yield ("no_error", None, "RecursionError")
         else:
